@@ -44,14 +44,14 @@
 (* No offset is excluded from the write set.  What the spec does not predict:  *)
 (* the DSP memory written by a DMA transfer, the interpreter's interrupt       *)
 (* latches, the AHBM burst queues, the words inside the audio FIFO.            *)
-(* Two situations have an outcome but are never driven into the real code by  *)
-(* the recorder: a DMA window access while active_channel >= 8 (out "oob":    *)
-(* the code indexes std::array<Channel,8> out of range, a C18 matter) and a   *)
-(* DMA start of more than 4096 elements (does not end in useful time; 32-bit  *)
-(* mode with SIZE0 = 0xFFFF never ends).                                      *)
+(* One situation is never driven into the real code by the recorder: a DMA   *)
+(* start of more than 4096 elements (does not end in useful time).            *)
 EXTENDS Naturals, Sequences, FiniteSets, TLC, Bitwise
 
 CONSTANTS
+  FixedChannelSelect,    \* TRUE  = the code after "fix: DMA channel select is a 3-bit field": 0x1BE keeps
+                         \*   v & 7; FALSE = as pinned before it: all 16 bits were kept and a window
+                         \*   access with active_channel >= 8 indexed channels[] out of range ("oob")
   FixedWindowRaw,        \* FALSE = as pinned: the bits of 0x1DA outside its three slots live in ONE
                          \*   BitFieldCell word shared by the eight DMA channels;
                          \* TRUE  = proposed repair: kept per channel
@@ -60,8 +60,8 @@ CONSTANTS
                          \*   after the other slots were stored and before the raw word is stored;
                          \* TRUE  = proposed repair: restart is ignored in those modes
 
-OOB == 65536              \* "read-back" of a DMA window register while active_channel >= 8
-                          \* (std::array index out of range in the code: never performed)
+OOB == 65536              \* "read-back" of a DMA window register while active_channel >= 8: only
+                          \* reachable with FixedChannelSelect = FALSE (out-of-range std::array index)
 Pow2(n) == 2^n
 Field(v, pos, len)   == (v \div Pow2(pos)) % Pow2(len)
 SlotMask(pos, len)   == (Pow2(len) - 1) * Pow2(pos)
@@ -130,7 +130,7 @@ ApbpRegs ==
   @@ (\hC4 :> Sp("reply", 1)) @@ (\hC6 :> Sp("cmd", 1))
   @@ (\hC8 :> Sp("reply", 2)) @@ (\hCA :> Sp("cmd", 2))
   @@ (\hCC :> Sp("sem_set", 0))
-  @@ (\hCE :> Ref(FC("mask"), \hFFFF))
+  @@ (\hCE :> R("sem_mask", FC("mask"), <<>>, \hFFFF))
   @@ (\hD0 :> Sp("sem_ack", 0))
   @@ (\hD2 :> Ro(FC("sem")))
   @@ (\hD4 :> Bits(<< SNone(2, 1), SRef(8, 1, FC("dis0")), SRef(12, 1, FC("dis1")),
@@ -174,7 +174,7 @@ DmaRegs ==
   @@ (\h186 :> Store(0)) @@ (\h188 :> Store(0)) @@ (\h18A :> Store(0))
   @@ (\h18C :> Sp("seox", 0))                \* get = 0xFFFF, set = the default cell's hidden storage
   @@ (\h18E :> Store(\h7777)) @@ (\h190 :> Store(\h7777))
-  @@ (\h1BE :> Ref(ActiveK, 7))              \* the code keeps all 16 bits
+  @@ (\h1BE :> R("chsel", ActiveK, <<>>, 7))  \* Dma::ActivateChannel keeps v & 7 (3-bit CHANNEL field)
   @@ [o \in { \h1C0 + 2 * (i - 1) : i \in 1..13 } |-> Win(WinFields[(o - \h1C0) \div 2 + 1])]
   @@ (\h1DA :> Bits(<< SRef(0, 4, K("dmawin", 0, "src_space")), SRef(4, 4, K("dmawin", 0, "dst_space")),
                        SRef(10, 1, K("dmawin", 0, "dword_mode")) >>, \h04FF))
@@ -238,8 +238,8 @@ Keys     == DevKeys                      \* of a fresh object; cell keys join as
 CellGet(s, o)    == IF CellK(o) \in DOMAIN s THEN s[CellK(o)] ELSE 0
 CellSet(s, o, v) == IF CellK(o) \in DOMAIN s THEN [s EXCEPT ![CellK(o)] = v] ELSE s @@ (CellK(o) :> v)
 
-\* value of a key in a freshly constructed Teakra (member initialisers); the ICU vector arrays have
-\* no initialiser at all (indeterminate until written: see FreshWith)
+\* value of a key in a freshly constructed Teakra (member initialisers; the ICU vector tables are
+\* zero-initialised since "fix: Reset() must also reset the interrupt controller")
 FreshVal(k) == CASE k[1] = "miu" /\ k[3] = "x_size"    -> \h20
                  [] k[1] = "miu" /\ k[3] = "y_size"    -> \h1E
                  [] k[1] = "miu" /\ k[3] = "mmio_base" -> \h8000
@@ -249,19 +249,13 @@ FreshVal(k) == CASE k[1] = "miu" /\ k[3] = "x_size"    -> \h20
 \* explicit table once
 Tab(f) == TLCEval(f)
 Fresh == Tab([k \in Keys |-> FreshVal(k)])
-\* a fresh object whose (uninitialised) ICU vector arrays happen to hold iv = <<low, high, ctx>>
-FreshWith(iv) == Tab([k \in Keys |-> IF k[1] = "icu" /\ k[3] = "vlow"  THEN iv[1][k[2] + 1]
-                                ELSE IF k[1] = "icu" /\ k[3] = "vhigh" THEN iv[2][k[2] + 1]
-                                ELSE IF k[1] = "icu" /\ k[3] = "vctx"  THEN iv[3][k[2] + 1]
-                                ELSE FreshVal(k)])
 
-(* Teakra::Reset = miu, both apbp, both timers, ahbm, dma, both btdmp,       *)
-(* processor.  NOT touched: the ICU (request, enables, vectors), every        *)
+(* Teakra::Reset = miu, icu, both apbp (DataChannel::Reset now clears       *)
+(* disable_interrupt too), both timers, ahbm, dma, both btdmp, processor:     *)
+(* every device field returns to its constructor value.  NOT touched: every   *)
 (* BitFieldCell raw word and every default Cell word (they live in lambdas    *)
-(* of MMIORegion), DataChannel::disable_interrupt (DataChannel::Reset skips   *)
-(* it).  This is the C17 suspect D4, modelled as the code is.                *)
-ResetKey(k) == \/ k[1] \in { "timer", "miu", "ahbm", "dma", "dmac", "bt" }
-               \/ (k[1] = "apbp" /\ k[3] \notin { "dis0", "dis1", "dis2" })
+(* of MMIORegion) -- the known finding of C17, modelled as the code is.       *)
+ResetKey(k) == k[1] # "cell"
 ResetEffect(s) == Tab([k \in DOMAIN s |-> IF ResetKey(k) THEN FreshVal(k) ELSE s[k]])
 SurvivesReset  == { k \in Keys \cup { CellK(o) : o \in AllOffs } : ~ ResetKey(k) }
 
@@ -330,6 +324,10 @@ Write(s, o, v) ==
       [] r.k = "const" -> Ok(s)
       [] r.k = "ro"    -> Ok(s)
       [] r.k = "ref"   -> Ok([s EXCEPT ![r.key] = v])
+      [] r.k = "chsel" -> Ok([s EXCEPT ![r.key] = IF FixedChannelSelect THEN v % 8 ELSE v])
+      [] r.k = "sem_mask" -> LET sig == SigOf(s[FC("sem")], v)       \* Apbp::MaskSemaphore (from_cpu): the
+                                 s1  == [s EXCEPT ![FC("mask")] = v, ![FC("signal")] = sig]  \* flag follows,
+                             IN  Ok(IF sig = 1 /\ s[FC("signal")] = 0 THEN Raise(s1, \h4000) ELSE s1) \* rise -> IRQ 14
       [] r.k = "bits"  -> LET a == ApplySlots(s, r.slots, 1, v)       \* then *storage = value
                           IN  IF a.out = "ok" THEN Ok(RawSet(a.s, o, v)) ELSE a
       [] r.k = "win"   -> IF WinOk(s) THEN Ok([s EXCEPT ![ResKey(s, r.key)] = v]) ELSE Oob(s)
@@ -370,7 +368,7 @@ Read(s, o) ==
     IN
     CASE r.k = "store" -> CellGet(s, o)
       [] r.k = "const" -> r.key[2]
-      [] r.k \in { "ro", "ref" } -> s[r.key]
+      [] r.k \in { "ro", "ref", "chsel", "sem_mask" } -> s[r.key]
       [] r.k = "bits"  -> IF o = \h1DA /\ ~ WinOk(s) THEN OOB
                           ELSE OverlaySlots(s, r.slots, 1, RawGet(s, o))
       [] r.k \in { "win", "win_z" } -> IF WinOk(s) THEN s[ResKey(s, r.key)] ELSE OOB
@@ -399,7 +397,7 @@ HostSetSem(s, v)  ==       \* apbp_from_cpu.SetSemaphore: the handler runs whene
     IN  IF sig = 1 THEN Raise(s1, \h4000) ELSE s1
 HostClrSem(s, v)  == LET sem == AndNot(s[FD("sem")], v)
                      IN  [s EXCEPT ![FD("sem")] = sem, ![FD("signal")] = SigOf(sem, s[FD("mask")])]
-HostMaskSem(s, v) == [s EXCEPT ![FD("mask")] = v]
+HostMaskSem(s, v) == [s EXCEPT ![FD("mask")] = v, ![FD("signal")] = SigOf(s[FD("sem")], v)]
 
 -----------------------------------------------------------------------------
 (* The two access paths (memory_interface.cpp, MemoryInterfaceUnit)           *)
@@ -440,7 +438,8 @@ RoMaskSum(slots, i) == IF i > Len(slots) THEN 0
 \* bits of offset o that the table marks writable-and-readable: a write of v must read back v there
 RWMask(o) ==
     LET r == RegOf(o) IN
-    CASE r.k \in { "store", "ref", "win", "win_z", "reply" } -> \hFFFF
+    CASE r.k \in { "store", "ref", "win", "win_z", "reply", "sem_mask" } -> \hFFFF
+      [] r.k = "chsel" -> IF FixedChannelSelect THEN 7 ELSE \hFFFF
       [] r.k = "bits" -> \hFFFF - RoMaskSum(r.slots, 1)
       [] OTHER -> 0      \* const, status, trigger, write-1-to-set / write-1-to-clear registers
 DocMask(o) == RegOf(o).dm
@@ -455,6 +454,7 @@ Coupled ==
   \cup { <<\h22 + \h10 * i, \h200>> : i \in 0..1 }                                 \* ... reaching 0 -> IRQ pending
   \cup { <<\hC0 + 4 * i, st>> : i \in 0..2, st \in { \hD6, \hD8 } }                 \* REPLYx -> data-ready flags
   \cup { <<\hD0, b>> : b \in { \hD2, \hD6, \hD8 } }                                \* ACK_SEMAPHORE -> GET_SEMAPHORE, S
+  \cup { <<\hCE, b>> : b \in { \hD6, \hD8, \h200 } }                               \* MASK_SEMAPHORE -> S, rise -> IRQ 14
   \cup { <<\h1BE, w>> : w \in WindowOffs }                                         \* channel select -> the window
   \cup { <<\h1DE, \h200>> }                                                        \* DMA start -> IRQ 15 pending
   \cup { <<\h202, \h200>>, <<\h204, \h200>> }                                      \* acknowledge / trigger
@@ -485,7 +485,8 @@ NonAliasingTab(s, rd, A, v) ==
 Touches(A) == LET k == RegOf(A).k  d == RegOf(A).key[1] IN
     IF A \in WindowOffs THEN { "dma", "cell", "icu" }
     ELSE IF A \in { \h20, \h22, \h30, \h32 } THEN { "timer", "cell", "icu" }
-    ELSE IF k = "ref" THEN { d }
+    ELSE IF k \in { "ref", "chsel" } THEN { d }
+    ELSE IF k = "sem_mask" THEN { "apbp", "icu" }
     ELSE IF k \in { "reply", "sem_set", "sem_ack", "cmd" } THEN { "apbp" }
     ELSE IF k \in { "icu_ack", "icu_trig" } THEN { "icu" }
     ELSE IF k \in { "bt_send", "bt_flush" } THEN { "bt" }
@@ -520,6 +521,13 @@ ChannelIndependentAt(s, A, v, strict, CS) ==
         IN  /\ \A W \in WindowOffs : (Read(sd, W) & m(W)) = (Read(sd0, W) & m(W))
             /\ (Read(sc2, A) & m(A)) = (v & m(A))
             /\ \A ch \in 0..7 \ { c }, f \in DmaFields : s1[<<"dma", ch, f>>] = sc[<<"dma", ch, f>>]
+
+\* ... and whatever is written to the channel select, the window stays a window onto one of the eight
+\* channels (violated by the code before the 3-bit fix: MC_Mmio_pinned_chsel.cfg)
+WindowReachableAt(s, v) ==
+    LET s1 == Write(s, \h1BE, v).s IN
+    /\ s1[ActiveK] \in 0..7
+    /\ \A W \in WindowOffs : Read(s1, W) # OOB /\ Write(s1, W, 0).out # "oob"
 
 \* (iv) both paths and every mirror reach the same register
 PathsAgreeAt(s, A) ==
